@@ -25,13 +25,14 @@ Slice(e)  == [k |-> "slice", e |-> e]
 Array2(e) == [k |-> "array", e |-> e]
 MapS(e)   == [k |-> "map", key |-> "string", e |-> e]
 MapI(e)   == [k |-> "map", key |-> "int", e |-> e]
+MapN(e)   == [k |-> "map", key |-> "MyStr", e |-> e]      \* key: a named type whose underlying type is string
 Anon      == [k |-> "anon"]           \* struct { X int `json:"x"`; Y *string `json:"y,omitempty"` }
 
 Leafs == {B(n) : n \in Basics} \cup {S(n) : n \in Special} \cup {Anon}
 Depth1 == Leafs \cup {Ptr(e) : e \in Leafs} \cup {Slice(e) : e \in Leafs} \cup {MapS(e) : e \in Leafs}
           \cup {Array2(B(n)) : n \in {"int", "string", "uint8", "bool", "float64", "int8"}} \cup {Array2(S("named_struct")), Array2(S("bytes"))}
-          \cup {MapI(B("string")), MapI(B("int64"))}
-Depth2 == {Slice(Array2(B("uint8"))), Array2(Slice(B("uint8"))), Ptr(Array2(B("uint8"))), MapS(Array2(B("int"))), Slice(Slice(B("int"))), Slice(Ptr(B("string"))), Ptr(Slice(B("int"))), MapS(Slice(B("string"))), Slice(MapS(B("int"))),
+          \cup {MapI(B("string")), MapI(B("int64"))} \cup {MapN(B("int")), MapN(B("string")), MapN(S("named_struct"))}
+Depth2 == {Slice(MapN(B("int"))), MapS(MapN(B("bool"))), Slice(Array2(B("uint8"))), Array2(Slice(B("uint8"))), Ptr(Array2(B("uint8"))), MapS(Array2(B("int"))), Slice(Slice(B("int"))), Slice(Ptr(B("string"))), Ptr(Slice(B("int"))), MapS(Slice(B("string"))), Slice(MapS(B("int"))),
            Ptr(Ptr(B("int"))), MapS(MapS(B("bool"))), Slice(S("named_struct")), Ptr(S("named_struct")), MapS(Ptr(S("named_struct"))),
            Slice(S("bytes")), Slice(Anon), Ptr(S("time")), Slice(S("time")), MapS(S("iface"))}
 FieldTypes == Depth1 \cup Depth2
